@@ -123,8 +123,26 @@ Proof.
 Qed.
 
 (* ---------------------------------------------------------------- names *)
-Lemma name_is_cloudwatch : forall u : unit_, unit_name u = cloudwatch_name u.
-Proof. destruct u as [ | | |s|s|s|s|s|n]; try destruct s; reflexivity. Qed.
+(* every tag's unit prints the name its Rust identifier promises (CloudWatch's), and that name is one CloudWatch
+   defines *)
+Definition chk_tag_name t :=
+  str_eqb (unit_name (tag_unit t)) (spec_name_of_tag t)
+  && match lookup (spec_name_of_tag t) cloudwatch_units with Some _ => true | None => false end
+  && str_eqb (cloudwatch_name (tag_unit t)) (spec_name_of_tag t).
+Lemma all_chk_tag_name : forall t, chk_tag_name t = true.
+Proof. apply sweep1. vm_compute. reflexivity. Qed.
+Lemma name_is_cloudwatch : forall t : tag,
+  unit_name (tag_unit t) = spec_name_of_tag t /\ cloudwatch_name (tag_unit t) = spec_name_of_tag t /\
+  exists info, lookup (spec_name_of_tag t) cloudwatch_units = Some info.
+Proof.
+  intros t. generalize (all_chk_tag_name t). unfold chk_tag_name. intros H.
+  apply andb_prop in H. destruct H as [H H3]. apply andb_prop in H. destruct H as [H1 H2].
+  apply str_eqb_eq in H1. apply str_eqb_eq in H3. repeat split; try assumption.
+  destruct (lookup (spec_name_of_tag t) cloudwatch_units) as [i|]; [exists i; reflexivity|discriminate].
+Qed.
+(* a custom unit prints its own string *)
+Lemma custom_name : forall n, unit_name (U_Custom n) = n /\ cloudwatch_name (U_Custom n) = n.
+Proof. intros n. split; reflexivity. Qed.
 
 Lemma names_distinct : forall a b : tag, unit_name (tag_unit a) = unit_name (tag_unit b) -> a = b.
 Proof.
